@@ -482,6 +482,31 @@ def generate(ctx, shard=0, nshards=1):
         stride = 1 if planet == 'Mercury' else 3
         for d in range(shard * stride, span, stride * nshards):
             check(ctx, 'elongation_planet', [planet, norm_jde(start + d)], 'elongation_planet/' + planet + '/daily')
+    # --- planets at their conjunctions and oppositions (instants from the library's own finders): the elongation
+    # comes within the ecliptic latitude of 0 or 180 degrees there, where its arc cosine is ill-conditioned and where
+    # any special handling of small / nearly straight angles would sit.  When the source of a modelled function
+    # changed, every planet is followed through a long run of consecutive years at 40-minute steps.
+    from pymeeus.Epoch import Epoch as _Epoch
+    syz = {'Mercury': ('inferior_conjunction', 'superior_conjunction'), 'Venus': ('inferior_conjunction', 'superior_conjunction')}
+    for p_ in PLANETS:
+        syz.setdefault(p_, ('opposition', 'conjunction'))
+    dense = ctx.scale > 1
+    offs = [k_ * (40.0 / 1440.0) for k_ in range(-12, 13)] if dense else [-0.3, -0.1, -0.02, 0.0, 0.02, 0.1, 0.3]
+    nyears = size(ctx, 2, 12, 160)
+    for planet in PLANETS:
+        y0 = rng.randint(-1900, 3900 - nyears) if not dense else rng.choice([1800, 1850, 1900, 1950, 2000])
+        for yk in range(shard, nyears, nshards):
+            for target in syz[planet]:
+                try:
+                    t0 = getattr(lib(planet), target)(_Epoch(y0 + yk, rng.randint(1, 12), 1.0)).jde()
+                except Exception:   # noqa  (finders are C13's business)
+                    continue
+                for off in offs:
+                    jj = norm_jde(t0 + off)
+                    tie_planet(ctx, planet, jj, 'syzygy')
+                    check(ctx, 'elongation_planet', [planet, jj], 'elongation_planet/' + planet + '/syzygy')
+                    if off == 0.0:
+                        check(ctx, 'direction_planet', [planet, jj], 'direction_planet/' + planet + '/syzygy')
     # --- Pluto
     plo, phi = R['pluto']
     for k in range(max(1, size(ctx, 240, 4000) // nshards)):
